@@ -10,18 +10,26 @@ from pbmon.gen import pop
 
 PROPERTY = "C05"
 NSHARDS = {"quick": 6, "thorough": 16}
-CLAUSES = {"C05.definition": 1500, "C05.encodings": 800, "C05.invariance": 800, "C05.evalfn": 800, "C05.evaluate": 300, "C05.factory": 200}
+CLAUSES = {"C05.definition": 1500, "C05.encodings": 800, "C05.invariance": 800, "C05.evalfn": 800, "C05.evaluate": 300, "C05.factory": 200, "C05.shared": 1500, "C05.inputs": 3000}
 RULE = ("every concrete SelectionProblem class found at run time is mapped to a criterion family; families with an independent definition "
         "are instantiated (constructor level: harness data; factory level: generated populations, also taxon-permuted) in all encodings the "
         "family has; one contribution pattern is rendered as subset / integer counts / binary indicator / real weights and evaluated through "
         "latentfn, evalfn (with recording transformation functions and random weights) and the pymoo evaluate interface.  4-14 candidates, "
-        "1-3 traits, subset sizes 1..n, all weight signs.  Non-trivial: >= 2 candidates; distinct = digest of (class, data, decision).")
+        "1-3 traits, subset sizes 1..n, all weight signs.  Shared-population cases: 5-12 factory calls (every factory that takes the "
+        "population's matrices, all encodings, unscale True/False, the same call repeated) on the SAME live population objects (one or two "
+        "populations of equal shape, interleaved; breeding value matrices with non-trivial location/scale built by from_numpy or the "
+        "constructor); the observable state of every population object is digested around every call + evaluation and every problem built "
+        "earlier is judged again after every later call.  Non-trivial: >= 2 candidates; distinct = digest of (class, data, decision).")
 ASSUME = ["definitions (contribution vector c, sum c = 1): breeding-value-like families -c.V; OCS [sqrt(c'Kc), -c.EBV]; MGR sqrt(c'Kc); MEH "
           "-(1-sqrt(c'Kc)) with K = C'C the kinship factor product; family EBV [-c.EBV, -per-family contribution]; L1 sum_m |V c|; L2 ||C c||; "
           "PAFD sum_m w|t-p|; PAU sum_m w*[target allele absent from the selection]; MOGS = [PAU, PAFD]",
           "OHV/OPV/genotype-builder haplotype values are decided by C18, progeny variances and usefulness-criterion matrices by C12; here "
           "their problems are checked at constructor level only (the stored matrix is taken as data)",
-          "classes with no definition in the table are listed in the evidence as unmodelled and nothing is claimed for them"]
+          "classes with no definition in the table are listed in the evidence as unmodelled and nothing is claimed for them",
+          "'the data of that population' is the state of the population objects as handed to the factory: original-scale breeding values = "
+          "stored values * scale + location, standardised genomic values = centred and scaled with the population sd (ddof 0); a factory and "
+          "the evaluation of its problem are queries - the population objects must read the same afterwards (C05.inputs), otherwise the "
+          "problems built before and after from one object could not all hold 'the data of that population' (C05.shared)"]
 TOL = 1e-9
 
 
@@ -448,6 +456,262 @@ def case_factory(ctx, c, classes):
                   witness={"class": cname, "members": members, "got": lat, "expected": expected, "taxa": pg.taxa}, coords=[c, "fcty"])
 
 
+# ---------------------------------------------------------------- several problems from the SAME live population objects
+BV_ATTRS = ("mat", "location", "scale", "taxa", "taxa_grp", "trait", "taxa_grp_name", "taxa_grp_stix", "taxa_grp_spix", "taxa_grp_len")
+GM_ATTRS = ("mat", "ploidy", "taxa", "taxa_grp", "taxa_grp_name", "taxa_grp_stix", "taxa_grp_spix", "taxa_grp_len", "vrnt_chrgrp", "vrnt_phypos",
+            "vrnt_genpos", "vrnt_xoprob", "vrnt_name", "vrnt_hapgrp", "vrnt_hapalt", "vrnt_hapref", "vrnt_mask", "vrnt_chrgrp_name",
+            "vrnt_chrgrp_stix", "vrnt_chrgrp_spix", "vrnt_chrgrp_len")
+MOD_ATTRS = ("beta", "u", "u_a", "u_misc", "trait", "model_name", "ntrait")
+
+
+def _freeze(v):
+    if isinstance(v, numpy.ndarray):
+        return (str(v.dtype), v.shape, repr(v.tolist()) if v.dtype == object else v.tobytes())
+    if isinstance(v, (list, tuple)):
+        return tuple(_freeze(a) for a in v)
+    if isinstance(v, dict):
+        return tuple(sorted((repr(a), _freeze(b)) for a, b in v.items()))
+    return repr(v)
+
+
+def _state(obj, names):
+    """Observable state of a population object: every public data attribute that can be read, frozen by value."""
+    out = {}
+    for a in names:
+        try:
+            out[a] = _freeze(getattr(obj, a))
+        except Exception as e:
+            out[a] = "unreadable:" + type(e).__name__
+    return out
+
+
+class _Pop:
+    pass
+
+
+def shared_population(g, n, m, t):
+    """One live population: phased + unphased genotypes, a breeding value matrix with a non-trivial location/scale, a model.
+    The harness keeps its OWN copies of everything (the truth); the library only ever sees the live objects."""
+    from pybrops.popgen.bvmat.DenseBreedingValueMatrix import DenseBreedingValueMatrix
+    from pybrops.model.gmod.DenseAdditiveLinearGenomicModel import DenseAdditiveLinearGenomicModel
+    from pybrops.popgen.gmat.DenseGenotypeMatrix import DenseGenotypeMatrix
+    P = _Pop(); P.n, P.m, P.t = n, m, t
+    pg = pop.make_pgmat(g, n, m, 2, codes="01", xomode="random")
+    pg.reorder_taxa(g.permutation(n))
+    if pg.is_grouped_taxa():
+        pg.ungroup_taxa()
+    P.grouped = bool(g.random() < 0.4)
+    if P.grouped:
+        pg.group_taxa()             # a population kept sorted by family with group metadata: a factory must not regroup / ungroup it either
+    P.pg = pg
+    P.Z = pg.mat.sum(0).astype(float)
+    tr = numpy.array(["y%d" % i for i in range(t)], dtype=object)
+    loc = g.choice([0.0, 5.0, 180.0, -3000.0], t) + g.normal(size=t); sc = g.choice([1.0, 0.01, 12.0, 1000.0], t) * g.uniform(0.5, 1.5, t)
+    form = ["from_numpy", "constructor", "constructor with location 0 and scale 1"][int(g.integers(3))]
+    if form == "from_numpy":
+        P.bv = DenseBreedingValueMatrix.from_numpy(g.normal(size=(n, t)) * sc + loc, taxa=pg.taxa, taxa_grp=pg.taxa_grp, trait=tr)
+    elif form == "constructor":
+        P.bv = DenseBreedingValueMatrix(g.normal(size=(n, t)), location=loc, scale=sc, taxa=pg.taxa, taxa_grp=pg.taxa_grp, trait=tr)
+    else:
+        P.bv = DenseBreedingValueMatrix(g.normal(size=(n, t)) * sc + loc, location=0.0, scale=1.0, taxa=pg.taxa, taxa_grp=pg.taxa_grp, trait=tr)
+    P.bvform = form + (", grouped taxa" if P.grouped else "")
+    if P.grouped:
+        P.bv.group_taxa()
+        if not numpy.array_equal(P.bv.taxa, pg.taxa):
+            raise RuntimeError("harness: grouping changed the taxon order of the breeding value matrix")
+    # the population's breeding values as handed over: stored values and original scale = stored * scale + location
+    P.Vs = numpy.array(P.bv.mat, dtype=float, copy=True)
+    P.Vr = P.Vs * numpy.array(P.bv.scale, dtype=float) + numpy.array(P.bv.location, dtype=float)
+    u = g.normal(size=(m, t)); u[int(g.integers(m))] = 0.0
+    if t > 1:
+        u[int(g.integers(m)), int(g.integers(t))] = 0.0
+    P.u = u.copy(); P.beta = g.normal(size=(1, t))
+    P.mod = DenseAdditiveLinearGenomicModel(beta=P.beta.copy(), u_misc=None, u_a=u, trait=tr)
+    P.un = DenseGenotypeMatrix(pg.mat.sum(0).astype("int8"), taxa=pg.taxa, taxa_grp=pg.taxa_grp, vrnt_chrgrp=pg.vrnt_chrgrp, vrnt_phypos=pg.vrnt_phypos, ploidy=2)
+    if P.grouped:
+        P.un.group_taxa()
+        if not numpy.array_equal(P.un.taxa, pg.taxa):
+            raise RuntimeError("harness: grouping changed the taxon order of the genotype matrix")
+    P.fam_ids = numpy.array(pg.taxa_grp, copy=True); P.fams = numpy.unique(P.fam_ids)
+    P.K = 0.5 * (1.0 + ((P.Z - 1) @ (P.Z - 1).T) / m)
+    P.G = P.Z @ P.u + P.beta[0]                                   # genomic breeding values, original scale
+    sd = P.G.std(0)
+    P.Gs = (P.G - P.G.mean(0)) / sd if bool(numpy.all(sd > 1e-9)) else None      # centred and scaled (population sd, ddof 0)
+    ac = P.Z.sum(0)[:, None]
+    fc = numpy.where(P.u > 0, ac, 2 * n - ac).astype(float); fc[P.u == 0] = 0
+    P.faf = fc / (2 * n)
+    P.alpha = float(g.choice([0.0, 0.3, 0.5, 1.0]))
+    P.MW2 = numpy.abs(P.u) + 0.05; P.AF2 = g.uniform(0.05, 0.95, (m, t))
+    P.W = g.uniform(0, 1, (m, t)); P.W[g.random((m, t)) < 0.2] = 0.0
+    P.TFQ = g.choice([0.0, 1.0, 0.5, 0.25], (m, t))
+    P.W0, P.TFQ0 = P.W.copy(), P.TFQ.copy()
+    P.objects = [("breeding value matrix", P.bv, BV_ATTRS), ("phased genotype matrix", P.pg, GM_ATTRS), ("genotype matrix", P.un, GM_ATTRS),
+                 ("genomic model", P.mod, MOD_ATTRS)]
+    return P
+
+
+def shared_routes(P):
+    """Every factory that takes the population's matrices: (family, factory, takes unscale, encodings, build, definition, kinship jitter,
+    (data attribute, truth) or None).  Definitions use the harness's own copies only."""
+    from pybrops.popgen.cmat.fcty.DenseMolecularCoancestryMatrixFactory import DenseMolecularCoancestryMatrixFactory as MCF
+    from pybrops.popgen.cmat.fcty.DenseGeneralizedWeightedCoancestryMatrixFactory import DenseGeneralizedWeightedCoancestryMatrixFactory as GWF
+    from pbmon.oracle import relmat
+    n, t = P.n, P.t
+    nf = len(P.fams)
+
+    def V(U):
+        return P.Vr if U else P.Vs
+
+    def Gv(U):
+        return P.G if U else P.Gs
+
+    def wt(alpha):
+        return P.u * numpy.power(numpy.where(P.faf > 0, P.faf, 1.0), -alpha)
+
+    def freq(cnt):
+        return (cnt @ P.Z) / (2 * cnt.sum())
+
+    def pafd(cnt):
+        return (P.W0 * numpy.abs(P.TFQ0 - freq(cnt)[:, None])).sum(0)
+
+    def pau(cnt):
+        p = freq(cnt)[:, None]; tf = P.TFQ0
+        avail = ((tf <= 0.0) & (p < 1.0)) | ((tf >= 1.0) & (p > 0.0)) | ((tf > 0.0) & (tf < 1.0) & (p > 0.0) & (p < 1.0))
+        return (P.W0 * ~avail).sum(0)
+    R = [
+        ("EstimatedBreedingValue", "from_bvmat", True, ENCS, lambda cl, e, k, U: cl.from_bvmat(bvmat=P.bv, unscale=U, **common(e, n, k, t)),
+         lambda cnt, cc, U: -(cc @ V(U)), False, lambda U: ("ebv", V(U))),
+        ("GenomicEstimatedBreedingValue", "from_bvmat", True, ENCS, lambda cl, e, k, U: cl.from_bvmat(bvmat=P.bv, unscale=U, **common(e, n, k, t)),
+         lambda cnt, cc, U: -(cc @ V(U)), False, lambda U: ("gebv", V(U))),
+        ("GenomicEstimatedBreedingValue", "from_gmat_gpmod", True, ENCS, lambda cl, e, k, U: cl.from_gmat_gpmod(gmat=P.pg, gpmod=P.mod, unscale=U, **common(e, n, k, t)),
+         lambda cnt, cc, U: -(cc @ Gv(U)), False, lambda U: ("gebv", Gv(U))),
+        ("OptimalContribution", "from_bvmat_gmat", True, ENCS, lambda cl, e, k, U: cl.from_bvmat_gmat(bvmat=P.bv, gmat=P.pg, cmatfcty=MCF(), unscale=U, **common(e, n, k, 1 + t)),
+         lambda cnt, cc, U: numpy.r_[numpy.sqrt(cc @ P.K @ cc), -(cc @ V(U))], True, lambda U: ("ebv", V(U))),
+        ("FamilyEstimatedBreedingValue", "from_bvmat", False, ENCS, lambda cl, e, k, U: cl.from_bvmat(bvmat=P.bv, **common(e, n, k, t + nf)),
+         lambda cnt, cc, U: numpy.r_[-(cc @ P.Vs), -numpy.array([cc[P.fam_ids == f].sum() for f in P.fams])], False, lambda U: ("ebv", P.Vs)),
+        ("MeanExpectedHeterozygosity", "from_gmat", False, ENCS, lambda cl, e, k, U: cl.from_gmat(gmat=P.pg, cmatfcty=MCF(), **common(e, n, k, 1)),
+         lambda cnt, cc, U: numpy.r_[-(1 - numpy.sqrt(cc @ P.K @ cc))], True, None),
+        ("MeanGenomicRelationship", "from_gmat", False, ENCS, lambda cl, e, k, U: cl.from_gmat(gmat=P.pg, cmatfcty=MCF(), **common(e, n, k, 1)),
+         lambda cnt, cc, U: numpy.r_[numpy.sqrt(cc @ P.K @ cc)], True, None),
+        ("GeneralizedWeightedGenomicEstimatedBreedingValue", "from_gmat_algpmod", False, ENCS,
+         lambda cl, e, k, U: cl.from_gmat_algpmod(gmat=P.un, algpmod=P.mod, alpha=P.alpha, **common(e, n, k, t)), lambda cnt, cc, U: -(cc @ (P.Z @ wt(P.alpha))), False, None),
+        ("WeightedGenomic", "from_gmat_algpmod", False, ENCS, lambda cl, e, k, U: cl.from_gmat_algpmod(gmat=P.un, algpmod=P.mod, **common(e, n, k, t)),
+         lambda cnt, cc, U: -(cc @ (P.Z @ wt(0.5))), False, None),
+        ("L2NormGenomic", "from_gmat", False, ENCS, lambda cl, e, k, U: cl.from_gmat(gmat=P.un, cmatfcty=GWF(), mkrwt=P.MW2, afreq=P.AF2, **common(e, n, k, t)),
+         lambda cnt, cc, U: numpy.array([numpy.sqrt(cc @ (0.5 * relmat.gweighted(P.Z, 2, P.AF2[:, i], P.MW2[:, i])[0]) @ cc) for i in range(t)]), True, None),
+        ("PopulationAlleleFrequencyDistance", "from_gmat_gpmod", False, ("Subset",),
+         lambda cl, e, k, U: cl.from_gmat_gpmod(gmat=(P.pg if U else P.un), weight=P.W, target=P.TFQ, gpmod=P.mod, **common(e, n, k, t)), lambda cnt, cc, U: pafd(cnt), False, None),
+        ("PopulationAlleleUnavailability", "from_gmat_gpmod", False, ("Subset",),
+         lambda cl, e, k, U: cl.from_gmat_gpmod(gmat=(P.pg if U else P.un), weight=P.W, target=P.TFQ, gpmod=P.mod, **common(e, n, k, t)), lambda cnt, cc, U: pau(cnt), False, None),
+        ("MultiObjectiveGenomic", "from_gmat_gpmod", False, ("Subset",),
+         lambda cl, e, k, U: cl.from_gmat_gpmod(gmat=(P.pg if U else P.un), weight=P.W, target=P.TFQ, gpmod=P.mod, **common(e, n, k, 2 * t)),
+         lambda cnt, cc, U: numpy.r_[pau(cnt), pafd(cnt)], False, None),
+    ]
+    return R
+
+
+def _judge(prob, enc, defn, U, tolK, n, g):
+    """A fresh contribution pattern in the problem's encoding against the definition.  Returns (ok, witness)."""
+    k = int(prob.ndecn) if enc == "Subset" else int(g.integers(1, n + 1))
+    members = g.choice(n, k, replace=False); cnt = numpy.bincount(members, minlength=n); cc = cnt / cnt.sum()
+    expected = numpy.asarray(defn(cnt.astype(float), cc, U), dtype=float)
+    x = render(enc, cnt, g)
+    lat = numpy.asarray(prob.latentfn(x), dtype=float)
+    if lat.shape != expected.shape:
+        ok = False
+    elif tolK:
+        ok = bool(numpy.all(numpy.abs(lat - expected) <= 1e-5 * (1 + numpy.abs(expected))))
+    else:
+        ok = near(lat, expected)[0]
+    return ok, {"x": x, "got": lat, "expected": expected}
+
+
+def case_shared(ctx, c, classes):
+    """Several problems (all encodings, repeated calls, unscale True/False, every factory that takes the population's matrices) built
+    from the SAME live population objects - one or two populations of equal shape, calls interleaved.  Around every factory call and
+    every evaluation the observable state of every population object is digested; every problem built earlier is judged again."""
+    g = ctx.rng("shared", c)
+    n = int(g.integers(3, 11)); m = int(g.integers(5, 20)); t = int(g.integers(1, 4))
+    pops = [shared_population(g, n, m, t) for _ in range(int(g.choice([1, 2])))]
+    routes = [shared_routes(P) for P in pops]
+    nr = len(routes[0])
+    # breeding-value-matrix routes drawn more often: they are the ones that can hand the population's own buffer to the problem
+    wts = numpy.array([3.0 if r[1] in ("from_bvmat", "from_bvmat_gmat") else 1.0 for r in routes[0]]); wts /= wts.sum()
+    built = []          # (population index, problem, encoding, definition, U, tolK, label)
+    last = None
+    coords = [c, "shared"]
+    twopop = "/two populations of equal shape interleaved" if len(pops) > 1 else ""
+    for step in range(int(g.integers(5, 13))):
+        pi = int(g.integers(len(pops))); P = pops[pi]
+        if last is not None and g.random() < 0.35:
+            ri = last                                      # the same factory again (other encoding / other unscale / identical call)
+        else:
+            ri = int(g.choice(nr, p=wts))
+        last = ri
+        fam, fname, takesU, encs, build, defn, tolK, attr = routes[pi][ri]
+        enc = encs[int(g.integers(len(encs)))]
+        cname = fam + enc + "SelectionProblem"
+        if cname not in classes:
+            continue
+        U = bool(g.integers(2))
+        if fam == "GenomicEstimatedBreedingValue" and fname == "from_gmat_gpmod" and not U and P.Gs is None:
+            U = True
+        site = "%s.%s" % (cname, fname)
+        ucls = ("/unscale=%s" % U) if takesU else ""
+        k = int(g.integers(1, n + 1))
+        ctx.case("shared:%s" % site, cname, P.Vs, P.Z, P.u, U, step)
+        before = [_state(o, names) for _, o, names in P.objects]
+        others_before = [[_state(o, names) for _, o, names in Q.objects] for Q in pops]
+        try:
+            prob = build(classes[cname], enc, k, U)
+        except Exception as e:
+            ctx.raised(site + " (shared population objects)", e); continue
+        # ---- the new problem holds the population's data
+        stop = False
+        try:
+            ok, w = _judge(prob, enc, defn, U, tolK, n, g)
+            if ok and attr is not None:
+                an, truth = attr(U)
+                got = numpy.asarray(getattr(prob, an), dtype=float)
+                ok = near(got, truth)[0]
+                w = dict(w, attribute=an, attribute_got=got, attribute_expected=truth)
+            ctx.check("C05.factory", ok, site, "problem holds the population's data in the population's taxon order",
+                      "%s encoding/population objects shared by several problems%s%s" % (enc, ucls, twopop), witness=dict(w, **{"class": cname, "step": step, "bvmat built by": P.bvform}), coords=coords)
+            stop = stop or not ok
+        except Exception as e:
+            ctx.raised(site + ".latentfn (shared population objects)", e)
+        # ---- every problem built earlier (from this or the other population) still holds its population's data
+        for j, (pj, pr, en, df, Uj, tk, label) in enumerate(built):
+            if pr is None:
+                continue
+            try:
+                ok, w = _judge(pr, en, df, Uj, tk, n, g)
+            except Exception as e:
+                ctx.raised(label + ".latentfn (after later factory calls)", e); continue
+            ctx.check("C05.shared", ok, site, "problems built earlier from the same population objects still hold the population's data after this factory call",
+                      "population objects shared by several problems%s%s" % (ucls, twopop), witness=dict(w, earlier_problem=label, earlier_unscale=Uj, later_call=site, step=step), coords=coords)
+            if not ok:
+                built[j] = (pj, None, en, df, Uj, tk, label); stop = True
+        built.append((pi, prob, enc, defn, U, tolK, site))
+        # ---- the factory call and the evaluations left every population object as it was
+        for qi, Q in enumerate(pops):
+            ref = before if qi == pi else others_before[qi]
+            for (oname, o, names), b in zip(Q.objects, ref):
+                a = _state(o, names)
+                changed = sorted(x for x in names if a[x] != b[x])
+                ctx.check("C05.inputs", not changed, site, "factory call and evaluation leave the population's %s unchanged" % oname,
+                          "population objects shared by several problems%s%s" % (ucls, "" if qi == pi else "/object of the OTHER population"),
+                          witness={"class": cname, "attributes changed": changed, "step": step, "bvmat built by": P.bvform}, coords=coords)
+                stop = stop or bool(changed)
+        ok_arr = numpy.array_equal(P.W, P.W0) and numpy.array_equal(P.TFQ, P.TFQ0)
+        if fname == "from_gmat_gpmod" and fam != "GenomicEstimatedBreedingValue":
+            ctx.check("C05.inputs", ok_arr, site, "factory call and evaluation leave the caller's marker weight / target frequency arrays unchanged",
+                      "population objects shared by several problems", witness={"class": cname, "step": step}, coords=coords)
+            stop = stop or not ok_arr
+        if stop:
+            break            # the population is no longer the one the harness knows: later judgements would blame innocent factories
+
+
 def case_uc(ctx, c, classes):
     """Usefulness-criterion problems built from a population: parental mean + selection intensity x sqrt(progeny variance),
     looked up through the cross map.  The progeny variance itself is taken from the library's variance matrix (decided by C12)."""
@@ -571,6 +835,8 @@ def run_shard(ctx):
             ctx.sample({"family": modelled[c % len(modelled)], "case": c})
     for c in ctx.case_ids(8 * 100, 8 * 16 * 800):
         case_factory(ctx, c, classes)
+    for c in ctx.case_ids(240, 16 * 600):
+        case_shared(ctx, c, classes)
     for c in ctx.case_ids(120, 16 * 400):
         case_uc(ctx, c, classes)
     for c in ctx.case_ids(160, 16 * 300):
@@ -585,6 +851,8 @@ def replay(ctx, coords):
         case_uc(ctx, int(coords[0]), classes)
     elif coords[1] == "embv":
         case_embv(ctx, int(coords[0]), classes)
+    elif coords[1] == "shared":
+        case_shared(ctx, int(coords[0]), classes)
     elif coords[1] == "ctor":
         case_constructor(ctx, int(coords[0]), classes, modelled)
     else:
